@@ -279,10 +279,13 @@ func (da *doubleArray) build(srcs []*record, idx, depth int, usedBase map[int]st
 				return err
 			}
 		case WildcardCharacter:
-			r := records[0]
-			name := r.Key[depth+1 : len(r.Key)-1]
-			r.paramNames = append(r.paramNames, name)
-			r.Key = ""
+			// every record that ends in a wildcard here, not only the first: records that differ
+			// in placeholder names alone share this node
+			for _, r := range records {
+				name := r.Key[depth+1 : len(r.Key)-1]
+				r.paramNames = append(r.paramNames, name)
+				r.Key = ""
+			}
 			da.bc[idx].SetWildcardParam()
 			if err := da.build(records, nextIndex(base, sib.c), 0, usedBase); err != nil {
 				return err
